@@ -4,7 +4,7 @@ import (
 	vrt "src.elv.sh/pkg/zzvrt"
 )
 
-const verifMdAlphabet = "#*_`>-+ \na[](<!\\1.&;~=:/\"|"
+const verifMdAlphabet = "#*_`>-+ \na[](<!\\10.&;~=:/\"|"
 
 // verifMdInput: n symbolic bytes, each one of the Markdown-significant
 // characters of verifMdAlphabet (alpha = 1) or any byte (alpha = 0).
@@ -51,6 +51,7 @@ var verifMdSeeds = []string{
 	"# a\n", "* a\n* b\n", "1. a\n   b\n", "> a\n> b\n", "`a` *b* **c**\n", "[a](b \"c\")\n",
 	"```x\ncode\n```\n", "a\\\nb  \nc\n", "<div>\nx\n</div>\n", "- a\n\n  b\n- c\n", "***\n",
 	"&amp; &#35; \\*\n", "![i](u)\n", "<http://a.b>\n", "    code\n\na\n", "a\n===\n", "1) a\n2) b\n", "* `a\n  b`\n",
+	"a\n01\\. b\n", "a\n1\\) b\n", "a\n\\- b\n", "a\n\\# b\n", "a\n\\> b\n", "a\n\\+ b\n", "a\n10\\. b\n",
 }
 
 // verifMdMutant: seed document with w bytes starting at `at` replaced by
